@@ -98,10 +98,17 @@ fn spill_entries(seed: u64) -> Vec<pmtiles2::Entry> {
 /// Run the scenario once on a stream with the given schedule. `fail_at`: fault index relative to the
 /// scenario's own operations. Returns the outcome and the stream whose operations are counted.
 pub fn exec(inst: &Inst, b: &Built, entries: &[pmtiles2::Entry], sched: Sched, fail_at: Option<u64>, keep_log: bool, start_pos: u64) -> (Outcome, Stream, u64) {
+    exec2(inst, b, entries, sched, fail_at, None, keep_log, start_pos)
+}
+
+/// `zero_at`: from this operation on the output accepts no more bytes (`write` returns Ok(0))
+#[allow(clippy::too_many_arguments)]
+pub fn exec2(inst: &Inst, b: &Built, entries: &[pmtiles2::Entry], sched: Sched, fail_at: Option<u64>, zero_at: Option<u64>, keep_log: bool, start_pos: u64) -> (Outcome, Stream, u64) {
     let c = codec::to_lib(b.header.internal);
     let a = inst.asyncio;
     let mut sched = sched;
     sched.fail_from = fail_at;
+    sched.zero_write_from = zero_at;
     let mk_reader = |data: Vec<u8>| Stream::new(data, 0, sched.clone(), keep_log);
     let mk_writer = || Stream::new(vec![0xEE; start_pos as usize], start_pos, sched.clone(), keep_log);
     let mut base_ops = 0u64;
@@ -162,9 +169,10 @@ pub fn exec(inst: &Inst, b: &Built, entries: &[pmtiles2::Entry], sched: Sched, f
             // Under fail-stop every lookup issued after the first failing one needs the (still failing) stream
             // again, so it has to be an error too: a lookup that "succeeds" after a failed one reports bytes that
             // were never transferred. The sequence counts as Err only if it is Err from the first failure on.
-            fn seq(results: impl Iterator<Item = std::io::Result<Option<Vec<u8>>>>) -> std::io::Result<()> {
+            // (a tile that exists must not turn into "no such tile" either)
+            fn seq(results: impl Iterator<Item = (bool, std::io::Result<Option<Vec<u8>>>)>) -> std::io::Result<()> {
                 let mut first_err: Option<std::io::Error> = None;
-                for r in results {
+                for (exists, r) in results {
                     match r {
                         Err(e) => {
                             if first_err.is_none() {
@@ -172,23 +180,42 @@ pub fn exec(inst: &Inst, b: &Built, entries: &[pmtiles2::Entry], sched: Sched, f
                             }
                         }
                         Ok(Some(_)) if first_err.is_some() => return Ok(()), // success reported after the fault
+                        Ok(None) if first_err.is_some() && exists => return Ok(()), // an existing tile reported as absent
                         Ok(_) => {}
                     }
                 }
                 first_err.map_or(Ok(()), Err)
             }
+            let exists: Vec<bool> = ids.iter().map(|i| b.expected.contains_key(i)).collect();
             let o = catch(move || -> std::io::Result<()> {
                 if a {
                     let mut pm = if partial { block_on(PMTiles::from_async_reader_partially(s2, lo..))? } else { block_on(PMTiles::from_async_reader(s2))? };
                     if get {
                         let rs: Vec<_> = ids.iter().map(|id| block_on(pm.get_tile_by_id_async(*id))).collect();
-                        seq(rs.into_iter())?;
+                        let failed = rs.iter().any(Result::is_err);
+                        let verdict = seq(exists.iter().copied().zip(rs));
+                        if failed && verdict.is_err() {
+                            // re-writing the archive from the (still failing) source must fail as well
+                            let mut out = futures::io::Cursor::new(Vec::new());
+                            if block_on(pm.to_async_writer(&mut out)).is_ok() {
+                                return Ok(());
+                            }
+                        }
+                        verdict?;
                     }
                 } else {
                     let mut pm = if partial { PMTiles::from_reader_partially(s2, lo..)? } else { PMTiles::from_reader(s2)? };
                     if get {
                         let rs: Vec<_> = ids.iter().map(|id| pm.get_tile_by_id(*id)).collect();
-                        seq(rs.into_iter())?;
+                        let failed = rs.iter().any(Result::is_err);
+                        let verdict = seq(exists.iter().copied().zip(rs));
+                        if failed && verdict.is_err() {
+                            let mut out = std::io::Cursor::new(Vec::new());
+                            if pm.to_writer(&mut out).is_ok() {
+                                return Ok(());
+                            }
+                        }
+                        verdict?;
                     }
                 }
                 Ok(())
@@ -294,6 +321,40 @@ fn check_fault(inst: &Inst, p: &Prep, k: u64) -> CaseResult {
         }
     }
     Ok(Meta::new(k > 0 && k + 1 < p.n).label(true, scen_label(inst.scen)).label(inst.asyncio, "async").label(!inst.asyncio, "sync").label(true, super::c01::codec_label(p.b.header.internal)))
+}
+
+/// second fault kind: from operation k on the sink accepts nothing (`write` returns Ok(0)); only for scenarios
+/// that write, and only for k after which the fault-free run still writes at least one byte
+fn check_zero_write(inst: &Inst, p: &Prep, k: u64) -> CaseResult {
+    let still_writes = p.log.iter().skip(k as usize).any(|o| matches!(o, OpRec::Write { bytes, .. } if !bytes.is_empty()));
+    if !still_writes {
+        return Ok(Meta::new(false).label(true, "zero-write-nothing-left-to-write"));
+    }
+    let (out, _, _) = exec2(inst, &p.b, &p.entries, Sched::none(), None, Some(k), false, 0);
+    let kind = if inst.asyncio { "async" } else { "sync" };
+    match out {
+        Err(pi) => fail!(format!("C15/panic-on-fault/{}/{kind}", inst.scen.name()), "sink full from operation {k} of {}: panic {} at {}", p.n, pi.msg, pi.loc),
+        Ok(Err(_)) => Ok(Meta::new(k > 0).label(true, "sink-full-zero-write").label(true, scen_label(inst.scen))),
+        Ok(Ok(())) => {
+            let flush_at = p.log.iter().position(|o| matches!(o, OpRec::Flush));
+            let phase = match flush_at {
+                Some(f) if (k as usize) > f => "after-flush",
+                Some(_) => "before-flush",
+                None => "no-flush",
+            };
+            let compressed = if p.b.header.internal == 1 { "none" } else { "codec" };
+            fail!(
+                format!("C15/ok-after-sink-full/{}/{kind}/{compressed}/{phase}", inst.scen.name()),
+                "from operation {k} of {} on the stream accepts no more bytes (write returns Ok(0)) but the call reports success ({})",
+                p.n,
+                codec::name(p.b.header.internal)
+            )
+        }
+    }
+}
+
+fn is_write_scenario(s: Scen) -> bool {
+    matches!(s, Scen::HeaderWrite | Scen::DirWrite | Scen::WriteDirs | Scen::WriteDirsSpill | Scen::WriteMem | Scen::WriteBacked)
 }
 
 fn short_op(o: &OpRec) -> String {
@@ -422,6 +483,35 @@ pub fn run(ctx: &Ctx) {
             json!({"inst": preps[idx].0, "k": k, "n": preps[idx].1.n})
         },
     );
+    // second pass: the sink is full (zero-length writes) from operation k on
+    // uncompressed scenarios only: a codec's own write loop may spin on a sink that keeps answering Ok(0) (brotli's does),
+    // which is the codec crate's behaviour and not an I/O *error* in the sense of the property
+    let wr: Vec<usize> = (0..preps.len()).filter(|i| is_write_scenario(preps[*i].0.scen) && preps[*i].1.b.header.internal == 1).collect();
+    let mut wprefix: Vec<u64> = vec![0];
+    for i in &wr {
+        wprefix.push(wprefix.last().unwrap() + preps[*i].1.n);
+    }
+    let wtot = *wprefix.last().unwrap();
+    let wlocate = |i: u64| -> (usize, u64) {
+        let idx = wprefix.partition_point(|p| *p <= i) - 1;
+        (wr[idx], i - wprefix[idx])
+    };
+    run_indexed(
+        ctx,
+        "every-sink-full-index",
+        wtot,
+        true,
+        64,
+        |i| {
+            let (idx, k) = wlocate(i);
+            check_zero_write(&preps[idx].0, &preps[idx].1, k)
+        },
+        |i| {
+            let (idx, k) = wlocate(i);
+            json!({"inst": preps[idx].0, "k": k, "n": preps[idx].1.n, "fault": "zero-length writes"})
+        },
+    );
+    ctx.rec.floor("sink-full-zero-write", 20);
     for c in ["scenario-header", "scenario-directory", "scenario-read_directories", "scenario-write_directories", "scenario-open", "scenario-get_tile", "scenario-to_writer", "async", "sync", "internal-brotli", "internal-gzip", "internal-zstd", "internal-none"] {
         ctx.rec.floor(c, 20);
     }
@@ -433,6 +523,11 @@ pub fn replay(sub: &str, case: &Value) -> Option<CaseResult> {
             let inst: Inst = super::de(case.get("inst")?)?;
             let k = case.get("k")?.as_u64()?;
             Some(prepare(&inst).and_then(|p| check_fault(&inst, &p, k)))
+        }
+        "every-sink-full-index" => {
+            let inst: Inst = super::de(case.get("inst")?)?;
+            let k = case.get("k")?.as_u64()?;
+            Some(prepare(&inst).and_then(|p| check_zero_write(&inst, &p, k)))
         }
         "fault-free-baseline" => {
             let inst: Inst = super::de(case)?;
